@@ -67,7 +67,8 @@ JOINTS = GR.ORDER + GR.ORDER5
 # cells
 # ----------------------------------------------------------------------------------------
 QUICK_SHALLOW = {("G2", "y"), ("G5", "y2"), ("G7", "y"), ("G8", "y"), ("G9", "y"), ("G10", "y")}
-SPECIALS = ["lognormal", "lognormal-cond", "reggauss", "reggauss-cond", "reggmrf-cond", "nonneggmrf", "model-linear", "model-nonlinear"]
+SPECIALS = ["lognormal", "lognormal-cond", "reggauss", "reggauss-cond", "reggmrf-cond", "nonneggmrf", "model-linear", "model-nonlinear",
+            "unknown-dim-normal", "unknown-dim-gamma"]
 
 
 def cells(tier, seed):
@@ -193,6 +194,20 @@ class World:
             self.add(D.Gamma(2.0, 1.0, geometry=2, name="q"), "tracked")
             self.vals = {"x": refs.dyadic_vec(2, k, scale=0.125), "z": refs.dyadic_vec(2, k + 1, scale=0.125), "q": pos(refs.dyadic_vec(2, k + 2))}
             self.valsB = {"x": refs.dyadic_vec(2, k + 5, scale=0.125), "z": refs.dyadic_vec(2, k + 6, scale=0.125), "q": pos(refs.dyadic_vec(2, k + 7))}
+        elif name in ("unknown-dim-normal", "unknown-dim-gamma"):
+            # an original whose dimension is unknown until it is conditioned; it is conditioned with values of DIFFERENT
+            # sizes (probe A: 4 entries, probe B: 1 entry) - copies must not inherit each other's inferred geometry
+            if name == "unknown-dim-normal":
+                self.add(D.Normal(lambda m: m, 1.0, name="x"), "original")
+                self.vals = {"x": refs.dyadic_vec(4, k, scale=0.25), "m": refs.dyadic_vec(4, k + 1, scale=0.25)}
+                self.valsB = {"x": refs.dyadic_vec(4, k + 3, scale=0.25), "m": refs.dyadic_vec(4, k + 5, scale=0.25)}
+                self.valsC = {"m": np.array([0.5 + 0.25 * k])}
+            else:
+                self.add(D.Gamma(lambda a: a, lambda b: b, name="x"), "original")
+                self.vals = {"x": pos(refs.dyadic_vec(4, k)), "a": pos(refs.dyadic_vec(4, k + 1)) + 1, "b": pos(refs.dyadic_vec(4, k + 2))}
+                self.valsB = {"x": pos(refs.dyadic_vec(4, k + 3)), "a": pos(refs.dyadic_vec(4, k + 4)) + 1, "b": pos(refs.dyadic_vec(4, k + 5))}
+                self.valsC = {"a": np.array([2.0 + 0.5 * k]), "b": np.array([1.5])}
+            self.use_condB = True
         else:
             raise ValueError(name)
 
@@ -384,10 +399,14 @@ def ops_for(w, i):
         if isinstance(nm, str) and nm in w.vals:
             ops.append(("to_likelihood", i, None))
     ops.append(("call0", i, None))
-    if w.role[i] == "pool" and (hasattr(obj, "enable_FD") or hasattr(obj, "likelihood")):
+    if w.role[i] == "pool" and getattr(w, "how", {}).get(i) in ("cond", "condB", "call0") and \
+            (hasattr(obj, "enable_FD") or hasattr(obj, "likelihood")):
         ops.append(("enable_fd", i, None))       # a setting changed ON A DERIVED OBJECT must not reach its relatives
     for S in cond_subsets(known):
         ops.append(("cond", i, S))
+    if getattr(w, "use_condB", False):
+        for S in cond_subsets([n for n in names if n in w.valsC]):
+            ops.append(("condB", i, S))          # the same conditioning with values of another size
     if isinstance(obj, (cuqi.distribution.Posterior, cuqi.distribution.MultipleLikelihoodPosterior)) and len(names) == 1 and len(known) == 1:
         ops.append(("mh_new", i, None))      # a sampler run on a conditioned copy (both interfaces)
         ops.append(("mh_old", i, None))
@@ -447,6 +466,8 @@ def do_op(w, op):
             return "enable_fd", None
         if name == "cond":
             return "cond", obj(**{n: GR.copy_val(v[n]) for n in arg})
+        if name == "condB":
+            return "condB", obj(**{n: GR.copy_val(w.valsC[n]) for n in arg})
         if name == "apply":
             return "apply", obj(w.objs[arg])
         if name == "mh_new":
@@ -563,12 +584,26 @@ class Explorer:
             self.res.refused += 1
         self.res.outcomes.add(outcome)
         if op[0] == "enable_fd":
-            # the target's own behaviour legitimately changes: re-baseline it, everything else must be unchanged
+            # the target's own behaviour legitimately changes: re-baseline it (and the likelihood VIEWS made of it with
+            # to_likelihood, which by design wrap the very same distribution object); everything else must be unchanged
             w.fp[op[1]] = fingerprint(w.objs[op[1]], w)
+            for _j in range(len(w.objs)):
+                if w.src[_j] == op[1] and getattr(w, "how", {}).get(_j) == "to_likelihood":
+                    w.fp[_j] = fingerprint(w.objs[_j], w)
         bad = self.check_all(w, n0)
+        if op[0] == "enable_fd":
+            _t = w.objs[op[1]]
+            for _x in ([_t.likelihood] if hasattr(_t, "likelihood") and hasattr(_t.likelihood, "disable_FD") else []) + \
+                      ([_t] if hasattr(_t, "disable_FD") else []):
+                guard(lambda: _x.disable_FD())
+            w.fp[op[1]] = fingerprint(_t, w)
+            for _j in range(len(w.objs)):
+                if w.src[_j] == op[1] and getattr(w, "how", {}).get(_j) == "to_likelihood":
+                    w.fp[_j] = fingerprint(w.objs[_j], w)
         nameprob = None
         if _new is not None:
             w.add(_new, "pool", op[1])
+            w.__dict__.setdefault("how", {})[len(w.objs) - 1] = op[0]
             f1 = fingerprint(_new, w)
             f2 = fingerprint(_new, w)
             w.fp[-1] = f1
@@ -579,6 +614,21 @@ class Explorer:
             d = fp_diff(f1, f2)
             if d is not None:
                 bad.append((len(w.objs) - 1, d, f1, f2, True))
+            # differential oracle for the NEW object: derived from an original it must be what the same operation gives
+            # on a fresh world ("the result it would have given had the intervening operations not happened")
+            elif op[1] < w.ntracked and (op[0] != "apply" or op[2] < w.ntracked):
+                key = (op[0], op[1], tuple(op[2]) if isinstance(op[2], (tuple, list)) else op[2])
+                cache = self.__dict__.setdefault("_fresh_new_fp", {})
+                if key not in cache:
+                    w0 = World(self.cell)
+                    _o0, _n0 = do_op(w0, op)
+                    cache[key] = fingerprint(_n0, w0) if _n0 is not None else None
+                f0 = cache[key]
+                if f0 is not None:
+                    self.res.evaluations += 1
+                    d0 = fp_diff(f0, f1)
+                    if d0 is not None:
+                        bad.append((len(w.objs) - 1, d0, f0, f1, True))
             # a conditioned copy keeps the random-variable name of its source
             if op[0] in ("cond", "call0", "to_likelihood") and kind_of(w.objs[op[1]]) in ("dist", "lik", "eval"):
                 n_src = dict(w.fp[op[1]]).get("name")
